@@ -45,6 +45,10 @@ def generate(seed, tier="quick"):
     prof = V.draw_profile(sub(seed, "profile"))
     prof.special = [s for s in prof.special if s not in ("norepr",)]
     prog = W.gen_program(rng, prof, {"prev": PREV, "styles": ["rec"], "n_sites": (1, 5), "n_tests": (1, 3), "max_obs": 5})
+    mrng = sub(seed, "mutation")
+    if mrng.random() < 0.2:
+        # one site observes the same object several times while the test mutates it in between
+        W.add_mutation_test(mrng, prog["files"][0], ops=("le", "ge", "in", "eq"), prev=True)
     srng = sub(seed, "steps")
     steps = []
     for i in range(srng.randint(1, 4)):
@@ -73,7 +77,7 @@ def apply_edit(prog, edit_seed, profile):
             if rng.random() < 0.5:
                 continue
             evs = [e for t in f["tests"] for e in t["events"] if e.get("t") == "cmp" and e["site"] == sid]
-            if not evs:
+            if not evs or any("var" in e for e in evs):
                 continue
             if s["op"] == "item":
                 for e in evs:
